@@ -12,7 +12,7 @@ From Coq Require Import List NArith ZArith Bool.
 From ApiFu Require Import Base.Sexp Intro.Utf8 Intro.IntrospectModel Intro.MarshalValue Intro.LiteralSpec
      Intro.IntrospectSpec Intro.Rebuild Intro.RebuildSpec Intro.Clone
      Intro.GraphProofs Intro.IntrospectProofs Intro.RefsProofs Intro.MarshalProofs Intro.RebuildProofs Intro.CloneProofs
-     Intro.Refuted.
+     Intro.Refuted Intro.ViewBridge.
 Import ListNotations.
 
 (** ** which types are listed *)
@@ -163,6 +163,41 @@ Theorem C10_rebuild_same_verdicts_partial : forall S F r,
   exists R, rebuild (map_defaults dflt_text r) = Some R /\ canon R = canon (erase S F).
 Proof. exact rebuild_same_for_validation. Qed.
 
+(** ... and therefore answers every schema lookup of the validator the way the visible part of the
+    original does.  The lookups are C13's ([FM.ask], coq/Feat/FeaturesModel.v: root types, type by
+    name, kind, GetField, possible types, enum values, input fields, directive by name — the
+    validator's view [FM.in_view_validator]); [to_feat] abstracts a C10 definition to a C13 schema;
+    [ans_eq] compares answers as finite maps / sets (what comes out of a Go map has no order) and
+    without the feature annotations and resolver tag a rebuilt definition cannot carry.  Any
+    feature sets [G], [G']: neither definition has anything gated left.
+
+    FULL STATEMENT, proved only in part:
+      ... ans_eq (FM.ask FM.fixed (to_feat R) G q) (FM.ask FM.fixed (to_feat (registered S)) F q)
+      for every q of the validator's view whose type pointers the request may hold; with
+      C13_noninterference: every consumer that sees the schema only through these lookups and does
+      not depend on map order computes the same on R and on (S, F) — same verdicts.
+    Missing: (a) [to_feat (erase S F)] is C13's [FS.erase (to_feat (registered S)) F] up to [fsim]
+    (C13 keeps the feature annotations and the registry order, C10's erase strips and sorts; the
+    relation [fsim] and [ask_sim] below are built for exactly this step, the lemma itself is not
+    proved), after which [C13_view_erase_eq] closes the chain; (b) the validator itself (C04).
+    Both remain covered by validating generated documents on both real schemas. *)
+Theorem C10_rebuild_same_lookups_partial : forall S F r,
+  depth_ok S = true -> interfaces_declared_once S = true -> locations_known S = true ->
+  refs_defined S = true -> gating_nested S = true -> roots_visible S F = true ->
+  builtins_consistent S = true -> kinds_ok S = true -> scalars_accept_all S = true -> defaults_denote S ->
+  introspect (print_default S) S F = IntroOk r ->
+  exists R, rebuild (map_defaults dflt_text r) = Some R /\
+    forall G G' q, FM.in_view_validator q = true ->
+      ans_eq (FM.ask FM.fixed (to_feat R) G q) (FM.ask FM.fixed (to_feat (erase S F)) G' q).
+Proof. exact rebuild_same_lookups. Qed.
+
+(** two C13 schemas that are the same up to map order and feature annotations ([fsim]) answer
+    every lookup of the validator's view alike for requests that see everything in them *)
+Theorem C10_similar_schemas_answer_alike : forall A B GA GB,
+  fsim A B -> all_visible A GA -> all_visible B GB ->
+  forall q, FM.in_view_validator q = true -> ans_eq (FM.ask FM.fixed A GA q) (FM.ask FM.fixed B GB q).
+Proof. exact ask_sim. Qed.
+
 (** KNOWN (key rebuilt-scalar-accepts-any-literal): [scalars_accept_all] cannot be dropped.  With
     every other hypothesis in place, a custom scalar whose literal coercion rejects something is
     rebuilt as a scalar that accepts everything (introspection does not carry coercions). *)
@@ -209,6 +244,8 @@ Print Assumptions C10_introspect_refs_resolve.
 Print Assumptions C10_default_roundtrip_partial.
 Print Assumptions C10_default_astral_refuted.
 Print Assumptions C10_rebuild_same_verdicts_partial.
+Print Assumptions C10_rebuild_same_lookups_partial.
+Print Assumptions C10_similar_schemas_answer_alike.
 Print Assumptions C10_rebuild_picky_scalar_refuted.
 Print Assumptions C10_clone_same_definition.
 Print Assumptions C10_clone_introspects_same.
